@@ -230,6 +230,11 @@ class VCGen:
             return r, want
         if want == REAL and t == INT:
             return ToReal(v), REAL
+        if want == REAL and t == FP:
+            from z3 import fpToReal
+            return fpToReal(v), REAL
+        if want == FP and t in (INT, REAL):
+            return s.to_fp(v, t), FP
         if want == REAL and t == BOOL:
             return If(v, RealVal(1), RealVal(0)), REAL
         if want == INT and t == BOOL:
@@ -249,9 +254,24 @@ class VCGen:
             return v, want
         raise Unsupported(f'cannot coerce {t} to {want}')
 
+    def to_fp(s, v, t):
+        from z3 import fpRealToFP, fpSignedToFP, RNE, Float64, FPVal
+        if t == FP:
+            return v
+        sv = simplify(v)
+        if t == INT and is_int_value(sv):
+            return FPVal(float(sv.as_long()), Float64())
+        if t == INT:
+            return fpRealToFP(RNE(), ToReal(v), Float64())
+        if t == REAL:
+            return fpRealToFP(RNE(), v, Float64())
+        raise Unsupported(f'cannot convert {t} to float64')
+
     def num2(s, a, ta, b, tb):
         if ta == tb:
             return a, b, ta
+        if FP in (ta, tb):
+            return s.to_fp(a, ta), s.to_fp(b, tb), FP
         if {ta, tb} <= {INT, REAL, BOOL}:
             if REAL in (ta, tb):
                 return s.coerce(a, ta, REAL)[0], s.coerce(b, tb, REAL)[0], REAL
@@ -338,6 +358,9 @@ class VCGen:
             return BoolVal(v), BOOL
         if isinstance(v, int):
             return IntVal(v), INT
+        if isinstance(v, float) and s.cur.get('float_mode') == 'fp64':
+            from z3 import FPVal, Float64
+            return FPVal(v, Float64()), FP
         if isinstance(v, float):
             from fractions import Fraction
             fr = Fraction(v)
@@ -456,6 +479,12 @@ class VCGen:
         if ta.k == 'list' and tb == INT and op is ast.Mult:
             return s.list_repeat(a, ta, b, st)
         a, b, t = s.num2(a, ta, b, tb)
+        if t == FP:
+            from z3 import fpAdd, fpSub, fpMul, fpDiv, RNE
+            f = {ast.Add: fpAdd, ast.Sub: fpSub, ast.Mult: fpMul, ast.Div: fpDiv}.get(op)
+            if f is None:
+                raise Unsupported('float64 operator')
+            return f(RNE(), a, b), FP
         if t == BOOL:
             raise Unsupported('arithmetic on bool')
         if op is ast.Add:
@@ -561,7 +590,14 @@ class VCGen:
                 raise Unsupported('is')
             return Not(r) if isinstance(op, ast.IsNot) else r
         if isinstance(op, (ast.Eq, ast.NotEq)):
-            if ta == tb:
+            if FP in (ta, tb):
+                from z3 import fpEQ
+                from z3 import is_fp_value
+                a2, b2, _ = s.num2(a, ta, b, tb)
+                cst = [x for x in (simplify(a2), simplify(b2)) if is_fp_value(x) and not x.isNaN() and not x.isZero()]
+                # equality with a non-zero, non-NaN constant: IEEE equality coincides with identity (lets the solver substitute)
+                r = (a2 == b2) if cst else fpEQ(a2, b2)
+            elif ta == tb:
                 if ta.k == 'list' and not s.cur.get('list_eq_structural', False) and not s.specmode:
                     r = s.eqlist(a, ta, b, tb)
                 else:
@@ -584,6 +620,9 @@ class VCGen:
             a2, b2, t = a, b, INT       # references are integers; contracts compare them with allocation counters
         else:
             a2, b2, t = s.num2(a, ta, b, tb)
+        if t == FP:
+            from z3 import fpLT, fpLEQ, fpGT, fpGEQ
+            return {ast.Lt: fpLT, ast.LtE: fpLEQ, ast.Gt: fpGT, ast.GtE: fpGEQ}[type(op)](a2, b2)
         if t not in (INT, REAL):
             raise Unsupported(f'ordering on {t}')
         return {ast.Lt: lambda: a2 < b2, ast.LtE: lambda: a2 <= b2, ast.Gt: lambda: a2 > b2, ast.GtE: lambda: a2 >= b2}[type(op)]()
@@ -741,7 +780,18 @@ class VCGen:
                 s.binders -= 1
         if kind == 'forall':
             f = Implies(rng, body) if lo is not None else body
-            return (f if want_skolem else ForAll([k], f)), BOOL
+            if want_skolem:
+                return f, BOOL
+            # forall a (Ra => forall b (Rb => B))  ==  forall a, b (Ra and Rb => B): one multi-variable quantifier gives the
+            # solver joint triggers such as CountP(L, n, (v, u))
+            from z3 import substitute_vars
+            if is_quantifier(body) and body.is_forall() and body.num_patterns() == 0:
+                inner = [Const(f'{body.var_name(i)}!m{next(Ty._fresh)}', body.var_sort(i)) for i in range(body.num_vars())]
+                ib = substitute_vars(body.body(), *reversed(inner))
+                g2 = Implies(rng, ib) if lo is not None else ib
+                return ForAll([k] + inner, g2), BOOL
+            pats = _patterns_for(k, f) if _has_quant(f) else []
+            return (ForAll([k], f, patterns=pats) if pats else ForAll([k], f)), BOOL
         f = And(rng, body) if lo is not None else body
         return (f if want_skolem else Exists([k], f)), BOOL
 
@@ -808,6 +858,12 @@ class VCGen:
                     if ta != tb:
                         a, b, ta = s.num2(a, ta, b, tb)
                     return If(c, a, b), ta
+                if nm == 'fp':
+                    from z3 import FPVal, Float64
+                    return FPVal(float(ast.literal_eval(e.args[0])), Float64()), FP
+                if nm == 'isnan':
+                    from z3 import fpIsNaN
+                    return fpIsNaN(s.ev(e.args[0], st)[0]), BOOL
                 if nm == 'real':
                     a, ta = s.ev(e.args[0], st)
                     return s.coerce(a, ta, REAL)
@@ -924,6 +980,9 @@ class VCGen:
 
     def bi_round(s, e, st):
         v, t = s.ev(e.args[0], st)
+        if len(e.args) == 1 and t == FP:
+            from z3 import RNE
+            return s.fp_to_int(v, RNE(), st, e.lineno)     # round(x): nearest integer, ties to even
         if len(e.args) == 1:
             ext = s.cur.get('externals', {})
             if 'round1' in ext:
@@ -936,8 +995,16 @@ class VCGen:
             s.safe(st, 'round-digits', d == 6, e.lineno)
         return SPEC['round6']['f'](s.coerce(v, t, REAL)[0]), REAL
 
+    def fp_to_int(s, v, mode, st, line):
+        from z3 import fpRoundToIntegral, fpToReal, fpIsNaN, fpIsInf
+        s.safe(st, 'float-to-int-finite', And(Not(fpIsNaN(v)), Not(fpIsInf(v))), line)     # int(nan) / int(inf) raise
+        return ToInt(fpToReal(fpRoundToIntegral(mode, v))), INT
+
     def bi_int(s, e, st):
         v, t = s.ev(e.args[0], st)
+        if t == FP:
+            from z3 import RTZ
+            return s.fp_to_int(v, RTZ(), st, e.lineno)
         if t == INT:
             return v, INT
         if t == REAL:
@@ -1051,6 +1118,10 @@ class VCGen:
 
     def meth_append(s, e, o, ot, st):
         x, tx = s.ev(e.args[0], st)
+        if x is not None and tx in (INT, REAL) and not is_const(x) and len(str(x)) > 80:
+            nm = fresh('elt', tx)          # name a large element term once instead of repeating it in every later formula
+            st.pc.append(nm == x)
+            x = nm
 
         def fn(lv, lt):
             et = lt.a[0]
@@ -1590,7 +1661,7 @@ class VCGen:
         return fields, lists
 
     def havoc(s, st, names, fields, lists, ghost_decl):
-        for v in names:
+        for v in sorted(names):
             if v in st.env:
                 t = st.env[v][1]
             else:
@@ -1599,7 +1670,7 @@ class VCGen:
                     continue    # first bound inside the loop: stays unbound outside
             st.env[v] = (fresh(v, t), t)
             st.pc += s.wf_facts(st.env[v][0], t)
-        for f in fields:
+        for f in sorted(fields):
             if f in st.heap:
                 ft = ARR(INT, s.field_type(f, None))
                 st.heap[f] = fresh('H_' + f, ft)
@@ -1870,6 +1941,11 @@ class VCGen:
         saved = s.cur
         s.cur = callee_view
         try:
+            for j, r in enumerate(saved.get('call_asserts', {}).get(q.split('.', 1)[1], [])):
+                # assertions of the CALLER about the arguments it passes (and the state in which it calls)
+                g = s.spec_eval(r, cal, 1)
+                s.cur['name'] = saved['name']
+                s.oblige(st, f'call-assert@{q.split(".", 1)[1]}#{j}@{line}', g, line, 'pre')
             for j, r in enumerate(k.get('requires', [])):
                 g = s.spec_eval(r, cal, 1)
                 saved_name = saved['name']
@@ -2045,6 +2121,56 @@ def _refinement(s, vq):
 
 
 VCGen.refinement = _refinement
+
+
+def _patterns_for(k, f):
+    """triggers for a quantifier whose body contains further quantifiers (z3's own inference does not look inside them):
+    every array read X[k] with X free of k, and every uninterpreted application with k as a direct argument"""
+    from z3 import is_select, Z3_OP_UNINTERPRETED
+    found = {}
+
+    def contains(e):
+        if e.eq(k):
+            return True
+        if is_quantifier(e):
+            return contains(e.body())
+        return any(contains(c) for c in e.children())
+
+    def has_var(e):
+        if is_var(e):
+            return True
+        if is_quantifier(e):
+            return True
+        return any(has_var(c) for c in e.children())
+
+    from z3 import Z3_OP_SELECT, Z3_OP_DT_ACCESSOR, Z3_OP_DT_CONSTRUCTOR, Z3_OP_ANUM
+
+    def ok_in_pattern(e):
+        if is_var(e) or is_quantifier(e):
+            return False
+        if not is_app(e):
+            return False
+        kd = e.decl().kind()
+        if e.num_args() == 0:
+            return True
+        if kd not in (Z3_OP_UNINTERPRETED, Z3_OP_SELECT, Z3_OP_DT_ACCESSOR, Z3_OP_DT_CONSTRUCTOR):
+            return False
+        return all(ok_in_pattern(c) for c in e.children())
+
+    def walk(e):
+        if is_quantifier(e):
+            walk(e.body())
+            return
+        if not is_app(e):
+            return
+        if is_select(e) and e.arg(1).eq(k) and not contains(e.arg(0)) and ok_in_pattern(e):
+            found[e.get_id()] = e
+        elif e.decl().kind() == Z3_OP_UNINTERPRETED and e.num_args() > 0 and any(c.eq(k) for c in e.children()) and ok_in_pattern(e):
+            found[e.get_id()] = e
+        for c in e.children():
+            walk(c)
+    walk(f)
+    return list(found.values())[:6]
 
 
 def _has_quant(e):
